@@ -110,6 +110,11 @@ def outside_model(m):
     return m.startswith("unsup") or m.startswith("fuel") or m.startswith("decerr")
 
 
+def is_known(c, text):
+    """does a known finding explain this case text? (no counting)"""
+    return any(re.search(f["match"], text, re.S) for f in c.known)
+
+
 class Runner:
     def __init__(self, c, hb):
         self.c, self.hb = c, hb
@@ -184,7 +189,7 @@ class Runner:
                 runs, _ = self.rerun(cands[:30])
                 hit = None
                 for x in runs:
-                    if x.verdict.startswith(want):
+                    if x.verdict.startswith(want) and not is_known(self.c, case_text(x)):
                         line = pinned_line(x)
                         if hit is None or len(line) < len(hit[0]):
                             hit = (line, case_text(x))
@@ -276,6 +281,12 @@ def main():
     # chains of struct members flattened into the root builder (struct_fields_as_options chains, merge_into with
     # under_path of 1..3 segments): sibling assignment paths of length >= 4 derived from one prefix
     r.stream("c14-lab-deep", n=6 if quick else 24, seed=c.seed + 13, deep=1, docs=5 if quick else 8, tier=c.tier)
+    # lists of unions rewritten into one appending option per branch; values interleave the branches
+    r.stream("c14-lab-lists", n=5 if quick else 20, seed=c.seed + 19, lists=1, docs=5 if quick else 8, tier=c.tier)
+    # a struct-level default that shadows the members' own defaults, flattened into arguments (CUE keeps it)
+    r.stream("c14-lab-structdefault", n=5 if quick else 20, seed=c.seed + 23, structdefault=1, formats="cue", docs=8 if quick else 12, tier=c.tier)
+    # one object built by several builders that pin a constant in their constructor (some take a constructor argument)
+    r.stream("c14-lab-variants", n=5 if quick else 20, seed=c.seed + 29, variants=1, docs=6 if quick else 10, tier=c.tier)
     r.report()
 
     st = r.stats
